@@ -141,4 +141,621 @@ theorem mem_presLeaves_iff (K : KTree) (pres : Nat → Bool) (p l : Nat) :
 theorem presLeaf_anc {K : KTree} {pres : Nat → Bool} {p l : Nat} (h : PresLeaf K pres p l) : Anc K.toTree p l :=
   reach_anc h.1
 
+theorem leavesF_anc (K : KTree) (pres : Nat → Bool) : ∀ (fuel p l : Nat), l ∈ leavesF K pres fuel p → Anc K.toTree p l := by
+  intro fuel
+  induction fuel with
+  | zero => intro p l h; simp [leavesF] at h
+  | succ fuel ih =>
+    intro p l h
+    rcases mem_leavesF_succ.mp h with ⟨_, rfl⟩ | ⟨_, c, hc, _, hl⟩
+    · exact Anc.refl _
+    · exact anc_trans (Anc.step ((K.kids_iff p c).mp hc) (Anc.refl p)) (ih c l hl)
+
+/-! ## the recursion as coded, characterised -/
+
+open Classical
+
+/-- a FRESH present leaf (one that does not carry `t` yet) of the write at `p` lies at / below `x` -/
+def Fresh (K : KTree) (pres : Nat → Bool) (t fuel p : Nat) (M : Lmt) (x : Nat) : Prop :=
+  ∃ l, l ∈ leavesF K pres fuel p ∧ Anc K.toTree x l ∧ M l ≠ t
+
+/-- `t`-stamps are closed upwards on the edges at / below `p` -/
+def TCbelow (K : KTree) (t p : Nat) (M : Lmt) : Prop :=
+  ∀ c q, K.parent c = some q → Anc K.toTree p q → M c = t → M q = t
+
+/-- what one `copy_value_from_impl` call at `p` from state `M` does (`o` = its outcome) -/
+structure CopySpec (K : KTree) (pres : Nat → Bool) (t fuel p : Nat) (M : Lmt) (o : WOut) : Prop where
+  frame : ∀ x, o.L x = M x ∨ (o.L x = t ∧ x ≠ p ∧ Anc K.toTree p x ∧ M x < t)
+  closed : ∀ c q, K.parent c = some q → Anc K.toTree p q → q ≠ p → o.L c = t → o.L q = t
+  count : ∀ x, o.N.count x = if o.L x = M x then 0 else 1
+  ok : ∀ b, o.r = some b →
+    (∀ x, o.L x = if x ≠ p ∧ Anc K.toTree p x ∧ Fresh K pres t fuel p M x then t else M x) ∧
+    (b = true ↔ ∃ l, l ∈ leavesF K pres fuel p ∧ M l ≠ t) ∧
+    (∀ y, y ≠ p → Anc K.toTree p y → M y = t → ¬ Fresh K pres t fuel p M y)
+  err : o.r = none → M p = t ∧ ∃ y, y ≠ p ∧ Anc K.toTree p y ∧ M y = t ∧ Fresh K pres t fuel p M y
+
+theorem copyF_succ (K : KTree) (t : Nat) (pres : Nat → Bool) (fuel p : Nat) (L : Lmt) :
+    copyF K t pres (fuel + 1) p L =
+      if K.kids p = [] then ⟨L, [], [p], some (L p != t)⟩
+      else (K.kids p).foldl (childStep t pres (fun c M => copyF K t pres fuel c M)) ⟨L, [], [], some false⟩ := rfl
+
+theorem foldl_childStep_none (t : Nat) (pres : Nat → Bool) (rec : Nat → Lmt → WOut) :
+    ∀ (cs : List Nat) (acc : WOut), acc.r = none → cs.foldl (childStep t pres rec) acc = acc := by
+  intro cs
+  induction cs with
+  | nil => intro acc _; rfl
+  | cons c cs ih =>
+    intro acc h
+    have : childStep t pres rec acc c = acc := by simp [childStep, h]
+    rw [List.foldl_cons, this]; exact ih acc h
+
+/-- the state of the `for index` loop of `fixed_copy_value_from` at `p`, entered in state `M0`, after the children
+    `done`, before the children `rem` -/
+structure LoopInv (K : KTree) (pres : Nat → Bool) (t fuel p : Nat) (M0 : Lmt) (done rem : List Nat) (acc : WOut) : Prop where
+  frame : ∀ x, acc.L x = M0 x ∨ (acc.L x = t ∧ x ≠ p ∧ Anc K.toTree p x ∧ M0 x < t)
+  closed : ∀ c q, K.parent c = some q → Anc K.toTree p q → q ≠ p → acc.L c = t → acc.L q = t
+  count : ∀ x, acc.N.count x = if acc.L x = M0 x then 0 else 1
+  untouched : ∀ c, c ∈ rem → ∀ x, Anc K.toTree c x → acc.L x = M0 x
+  ok : ∀ nm, acc.r = some nm →
+    (∀ x, acc.L x = if (∃ c, c ∈ done ∧ pres c = true ∧ Anc K.toTree c x ∧ Fresh K pres t fuel c M0 x) then t else M0 x) ∧
+    (nm = true ↔ ∃ c, c ∈ done ∧ pres c = true ∧ ∃ l, l ∈ leavesF K pres fuel c ∧ M0 l ≠ t) ∧
+    (∀ c, c ∈ done → pres c = true → ∀ y, Anc K.toTree c y → M0 y = t → ¬ Fresh K pres t fuel c M0 y)
+  err : acc.r = none → M0 p = t ∧ ∃ c y, c ∈ K.kids p ∧ pres c = true ∧ Anc K.toTree c y ∧ M0 y = t ∧ Fresh K pres t fuel c M0 y
+
+theorem count_append3 (a b : List Nat) (c x : Nat) :
+    (a ++ b ++ [c]).count x = a.count x + b.count x + (if c = x then 1 else 0) := by
+  simp only [List.count_append, List.count_cons, List.count_nil, beq_iff_eq]
+  split <;> omega
+
+theorem ite_iff_congr {P Q : Prop} [Decidable P] [Decidable Q] (h : P ↔ Q) (a b : Nat) :
+    (if P then a else b) = (if Q then a else b) := by
+  by_cases hp : P
+  · rw [if_pos hp, if_pos (h.mp hp)]
+  · rw [if_neg hp, if_neg (fun hq => hp (h.mpr hq))]
+
+/-- one child of the loop -/
+theorem loop_step (K : KTree) (pres : Nat → Bool) (t fuel p : Nat) (M0 : Lmt)
+    (hb0 : ∀ x, M0 x ≤ t) (htc0 : TCbelow K t p M0)
+    (ihc : ∀ c M, K.height c < fuel → (∀ x, M x ≤ t) → TCbelow K t c M →
+      CopySpec K pres t fuel c M (copyF K t pres fuel c M))
+    (hf : K.height p < fuel + 1)
+    (done rem : List Nat) (c : Nat) (acc : WOut)
+    (hc : K.parent c = some p) (hrem : ∀ c', c' ∈ rem → K.parent c' = some p)
+    (hdone : ∀ c', c' ∈ done → K.parent c' = some p)
+    (hcd : c ∉ done) (hcr : c ∉ rem)
+    (I : LoopInv K pres t fuel p M0 done (c :: rem) acc) :
+    LoopInv K pres t fuel p M0 (done ++ [c]) rem
+      (childStep t pres (fun c M => copyF K t pres fuel c M) acc c) := by
+  have hpc : p < c := K.wf c p hc
+  have hcmem : c ∈ K.kids p := (K.kids_iff p c).mpr hc
+  have hApc : Anc K.toTree p c := Anc.step hc (Anc.refl p)
+  -- what stays true whatever happens to `c`
+  have hun_rem : ∀ (L' : Lmt), (∀ x, ¬ Anc K.toTree c x → L' x = acc.L x) →
+      ∀ c', c' ∈ rem → ∀ x, Anc K.toTree c' x → L' x = M0 x := by
+    intro L' hL' c' hc' x hx
+    have hne : c ≠ c' := fun e => hcr (e ▸ hc')
+    have : ¬ Anc K.toTree c x := fun h => hne (anc_child_unique hc (hrem c' hc') h hx)
+    rw [hL' x this]; exact I.untouched c' (List.mem_cons_of_mem _ hc') x hx
+  cases hr : acc.r with
+  | none =>
+    have : childStep t pres (fun c M => copyF K t pres fuel c M) acc c = acc := by simp [childStep, hr]
+    rw [this]
+    exact ⟨I.frame, I.closed, I.count, fun c' h => I.untouched c' (List.mem_cons_of_mem _ h),
+      (fun nm h => by rw [hr] at h; cases h), I.err⟩
+  | some nm =>
+    obtain ⟨okL, okN, okD⟩ := I.ok nm hr
+    by_cases hp : pres c = false
+    · have : childStep t pres (fun c M => copyF K t pres fuel c M) acc c = acc := by simp [childStep, hr, hp]
+      rw [this]
+      refine ⟨I.frame, I.closed, I.count, fun c' h => I.untouched c' (List.mem_cons_of_mem _ h), ?_,
+        (fun h => by rw [hr] at h; cases h)⟩
+      intro nm' hnm'
+      rw [hr] at hnm'; injection hnm' with hnm'; subst hnm'
+      refine ⟨?_, ?_, ?_⟩
+      · intro x
+        rw [okL x]
+        have : (∃ c', c' ∈ done ++ [c] ∧ pres c' = true ∧ Anc K.toTree c' x ∧ Fresh K pres t fuel c' M0 x) ↔
+            (∃ c', c' ∈ done ∧ pres c' = true ∧ Anc K.toTree c' x ∧ Fresh K pres t fuel c' M0 x) := by
+          constructor
+          · rintro ⟨c', hm, h1, h2⟩
+            rcases List.mem_append.mp hm with h | h
+            · exact ⟨c', h, h1, h2⟩
+            · have : c' = c := by simpa using h
+              subst this; rw [hp] at h1; cases h1
+          · rintro ⟨c', hm, h1, h2⟩; exact ⟨c', List.mem_append_left _ hm, h1, h2⟩
+        exact (ite_iff_congr this t (M0 x)).symm
+      · rw [okN]
+        constructor
+        · rintro ⟨c', hm, h1, h2⟩; exact ⟨c', List.mem_append_left _ hm, h1, h2⟩
+        · rintro ⟨c', hm, h1, h2⟩
+          rcases List.mem_append.mp hm with h | h
+          · exact ⟨c', h, h1, h2⟩
+          · have : c' = c := by simpa using h
+            subst this; rw [hp] at h1; cases h1
+      · intro c' hm h1
+        rcases List.mem_append.mp hm with h | h
+        · exact okD c' h h1
+        · have : c' = c := by simpa using h
+          subst this; rw [hp] at h1; cases h1
+    · have hp' : pres c = true := by
+        rcases Bool.eq_false_or_eq_true (pres c) with h | h
+        · exact h
+        · exact absurd h hp
+      -- the recursive call
+      have hbA : ∀ x, acc.L x ≤ t := by
+        intro x; rcases I.frame x with h | ⟨h, _⟩
+        · rw [h]; exact hb0 x
+        · omega
+      have htcA : TCbelow K t c acc.L := by
+        intro c' q' hc' hq' hct
+        have hle := anc_le hq'
+        exact I.closed c' q' hc' (anc_trans hApc hq') (by omega) hct
+      have hh : K.height c < fuel := by have := K.height_lt p c hc; omega
+      have S := ihc c acc.L hh hbA htcA
+      have hunc : ∀ x, Anc K.toTree c x → acc.L x = M0 x := I.untouched c List.mem_cons_self
+      have hfresh_eq : ∀ x, Fresh K pres t fuel c acc.L x ↔ Fresh K pres t fuel c M0 x := by
+        intro x
+        constructor
+        · rintro ⟨l, hl, ha, hne⟩; exact ⟨l, hl, ha, by rw [← hunc l (leavesF_anc K pres fuel c l hl)]; exact hne⟩
+        · rintro ⟨l, hl, ha, hne⟩; exact ⟨l, hl, ha, by rw [hunc l (leavesF_anc K pres fuel c l hl)]; exact hne⟩
+      generalize ho : copyF K t pres fuel c acc.L = o at S
+      have hoc : o.L c = acc.L c := by
+        rcases S.frame c with h | ⟨_, h, _⟩
+        · exact h
+        · exact absurd rfl h
+      have hout : ∀ x, ¬ Anc K.toTree c x → o.L x = acc.L x := by
+        intro x hx
+        rcases S.frame x with h | ⟨_, _, h, _⟩
+        · exact h
+        · exact absurd h hx
+      -- facts shared by all outcomes: frame and counts of the state `o.L` (before the stamp of `c`)
+      have hframe_o : ∀ x, o.L x = M0 x ∨ (o.L x = t ∧ x ≠ p ∧ Anc K.toTree p x ∧ M0 x < t) := by
+        intro x
+        rcases S.frame x with h | ⟨h1, _, h3, h4⟩
+        · rw [h]; exact I.frame x
+        · right
+          have hle := anc_le h3
+          rw [hunc x h3] at h4
+          exact ⟨h1, by omega, anc_trans hApc h3, h4⟩
+      have hcount_o : ∀ x, (acc.N ++ o.N).count x = if o.L x = M0 x then 0 else 1 := by
+        intro x
+        rw [List.count_append, I.count x, S.count x]
+        rcases S.frame x with h | ⟨h1, _, h3, h4⟩
+        · rw [h]; simp
+        · have e := hunc x h3
+          have hb := hb0 x
+          have h5 : ¬ o.L x = acc.L x := by omega
+          have h6 : ¬ o.L x = M0 x := by omega
+          simp [e, h5, h6]
+      -- closure of the edges strictly inside `p`, given the state of `c` itself carries `t` whenever a child of `c` does
+      have hclosed_o : (∀ c', K.parent c' = some c → o.L c' = t → o.L c = t) →
+          ∀ c' q', K.parent c' = some q' → Anc K.toTree p q' → q' ≠ p → o.L c' = t → o.L q' = t := by
+        intro hinto c' q' hc' hq' hne hct
+        by_cases hq'c : q' = c
+        · subst hq'c; exact hinto c' hc' hct
+        · by_cases hcq : Anc K.toTree c q'
+          · exact S.closed c' q' hc' hcq hq'c hct
+          · have hnc : ¬ (c' ≠ c ∧ Anc K.toTree c c') := fun ⟨h1, h2⟩ => hcq (anc_parent_of_ne hc' h2 (Ne.symm h1))
+            have e1 : o.L c' = acc.L c' := by
+              rcases S.frame c' with h | ⟨_, h2, h3, _⟩
+              · exact h
+              · exact absurd ⟨h2, h3⟩ hnc
+            rw [hout q' hcq]
+            exact I.closed c' q' hc' hq' hne (by rw [← e1]; exact hct)
+      have hM0p_of : acc.L c = t → M0 p = t := by
+        intro h
+        have : M0 c = t := by rw [← hunc c (Anc.refl c)]; exact h
+        exact htc0 c p hc (Anc.refl p) this
+      have hstep : childStep t pres (fun c M => copyF K t pres fuel c M) acc c =
+          (match o.r with
+            | none => ⟨o.L, acc.N ++ o.N, acc.V ++ o.V, none⟩
+            | some false => ⟨o.L, acc.N ++ o.N, acc.V ++ o.V, some nm⟩
+            | some true =>
+              if t ≤ o.L c then ⟨o.L, acc.N ++ o.N, acc.V ++ o.V, none⟩
+              else ⟨upd o.L c t, acc.N ++ o.N ++ [c], acc.V ++ o.V, some true⟩) := by
+        simp only [childStep, hr, hp', ho]
+        rfl
+      rw [hstep]
+      cases hor : o.r with
+      | none =>
+        obtain ⟨e1, y, hy1, hy2, hy3, hy4⟩ := S.err hor
+        simp only
+        refine ⟨hframe_o, ?_, hcount_o, hun_rem o.L hout, (fun nm' h => by cases h), fun _ => ?_⟩
+        · apply hclosed_o
+          intro c' _ _
+          rw [hoc]; exact e1
+        · refine ⟨hM0p_of e1, c, y, hcmem, hp', hy2, ?_, (hfresh_eq y).mp hy4⟩
+          rw [← hunc y hy2]; exact hy3
+      | some b =>
+        obtain ⟨sL, sB, sD⟩ := S.ok b hor
+        cases b with
+        | false =>
+          simp only
+          have nofresh : ¬ ∃ l, l ∈ leavesF K pres fuel c ∧ acc.L l ≠ t := fun h => by
+            have := sB.mpr h; cases this
+          have hsame : ∀ x, o.L x = acc.L x := by
+            intro x
+            rw [sL x]
+            have : ¬ (x ≠ c ∧ Anc K.toTree c x ∧ Fresh K pres t fuel c acc.L x) := by
+              rintro ⟨_, _, l, hl, _, hne⟩; exact nofresh ⟨l, hl, hne⟩
+            simp [this]
+          have nofresh0 : ∀ x, ¬ Fresh K pres t fuel c M0 x := by
+            intro x hx
+            obtain ⟨l, hl, _, hne⟩ := (hfresh_eq x).mpr hx
+            exact nofresh ⟨l, hl, hne⟩
+          refine ⟨hframe_o, ?_, hcount_o, hun_rem o.L hout, ?_, (fun h => by cases h)⟩
+          · intro c' q' hc' hq' hne hct
+            rw [hsame] at hct ⊢
+            exact I.closed c' q' hc' hq' hne hct
+          · intro nm' hnm'
+            injection hnm' with hnm'; subst hnm'
+            refine ⟨?_, ?_, ?_⟩
+            · intro x
+              rw [hsame x, okL x]
+              have : (∃ c', c' ∈ done ++ [c] ∧ pres c' = true ∧ Anc K.toTree c' x ∧ Fresh K pres t fuel c' M0 x) ↔
+                  (∃ c', c' ∈ done ∧ pres c' = true ∧ Anc K.toTree c' x ∧ Fresh K pres t fuel c' M0 x) := by
+                constructor
+                · rintro ⟨c', hm, h1, h2, h3⟩
+                  rcases List.mem_append.mp hm with h | h
+                  · exact ⟨c', h, h1, h2, h3⟩
+                  · have : c' = c := by simpa using h
+                    subst this; exact absurd h3 (nofresh0 x)
+                · rintro ⟨c', hm, h1, h2⟩; exact ⟨c', List.mem_append_left _ hm, h1, h2⟩
+              exact (ite_iff_congr this t (M0 x)).symm
+            · rw [okN]
+              constructor
+              · rintro ⟨c', hm, h1, h2⟩; exact ⟨c', List.mem_append_left _ hm, h1, h2⟩
+              · rintro ⟨c', hm, h1, l, hl, hne⟩
+                rcases List.mem_append.mp hm with h | h
+                · exact ⟨c', h, h1, l, hl, hne⟩
+                · have : c' = c := by simpa using h
+                  subst this
+                  exact absurd ⟨l, hl, by rw [hunc l (leavesF_anc K pres fuel c' l hl)]; exact hne⟩ nofresh
+            · intro c' hm h1
+              rcases List.mem_append.mp hm with h | h
+              · exact okD c' h h1
+              · have : c' = c := by simpa using h
+                subst this
+                intro y _ _; exact nofresh0 y
+        | true =>
+          obtain ⟨l0, hl0, hne0⟩ := sB.mp rfl
+          have hl0' : M0 l0 ≠ t := by rw [← hunc l0 (leavesF_anc K pres fuel c l0 hl0)]; exact hne0
+          have hAl0 : Anc K.toTree c l0 := leavesF_anc K pres fuel c l0 hl0
+          simp only
+          by_cases hdup : t ≤ o.L c
+          · -- the duplicate-modification error at `c`
+            rw [if_pos hdup]
+            have hct : acc.L c = t := by have := hbA c; rw [hoc] at hdup; omega
+            refine ⟨hframe_o, ?_, hcount_o, hun_rem o.L hout, (fun nm' h => by cases h), fun _ => ?_⟩
+            · apply hclosed_o
+              intro c' _ _
+              rw [hoc]; exact hct
+            · refine ⟨hM0p_of hct, c, c, hcmem, hp', Anc.refl c, ?_, l0, hl0, hAl0, hl0'⟩
+              rw [← hunc c (Anc.refl c)]; exact hct
+          · rw [if_neg hdup]
+            have hlt : acc.L c < t := by rw [hoc] at hdup; omega
+            have hM0c : M0 c < t := by rw [← hunc c (Anc.refl c)]; exact hlt
+            refine ⟨?_, ?_, ?_, ?_, ?_, (fun h => by cases h)⟩
+            · intro x
+              by_cases hx : x = c
+              · subst hx; right; exact ⟨by simp [upd], by omega, hApc, hM0c⟩
+              · simp only [upd, hx, if_false]; exact hframe_o x
+            · intro c' q' hc' hq' hne hct
+              by_cases hq'c : q' = c
+              · subst hq'c; simp [upd]
+              · have hc'c : c' ≠ c := by
+                  intro e; subst e; rw [hc] at hc'; injection hc' with hc'; exact hne hc'.symm
+                simp only [upd, hc'c, hq'c, if_false] at hct ⊢
+                by_cases hcq : Anc K.toTree c q'
+                · exact S.closed c' q' hc' hcq hq'c hct
+                · have hnc : ¬ (c' ≠ c ∧ Anc K.toTree c c') := fun ⟨h1, h2⟩ => hcq (anc_parent_of_ne hc' h2 (Ne.symm h1))
+                  have e1 : o.L c' = acc.L c' := by
+                    rcases S.frame c' with h | ⟨_, h2, h3, _⟩
+                    · exact h
+                    · exact absurd ⟨h2, h3⟩ hnc
+                  rw [hout q' hcq]
+                  exact I.closed c' q' hc' hq' hne (by rw [← e1]; exact hct)
+            · intro x
+              rw [count_append3, ← List.count_append, hcount_o x]
+              by_cases hx : c = x
+              · subst hx
+                have h1 : o.L c = M0 c := by rw [hoc]; exact hunc c (Anc.refl c)
+                have h2 : ¬ upd o.L c t c = M0 c := by simp [upd]; omega
+                simp [h1, h2]
+              · have hx' : x ≠ c := fun e => hx e.symm
+                simp [upd, hx, hx']
+            · intro c' hc' x hx
+              have hne : c ≠ c' := fun e => hcr (e ▸ hc')
+              have hxc : x ≠ c := by
+                intro e; subst e
+                exact hne (anc_child_unique hc (hrem c' hc') (Anc.refl x) hx)
+              simp only [upd, hxc, if_false]
+              exact hun_rem o.L hout c' hc' x hx
+            · intro nm' hnm'
+              injection hnm' with hnm'; subst hnm'
+              refine ⟨?_, ?_, ?_⟩
+              · intro x
+                by_cases hcx : Anc K.toTree c x
+                · -- inside the subtree of `c`: no earlier child is above `x`
+                  have hnodone : ¬ ∃ c', c' ∈ done ∧ pres c' = true ∧ Anc K.toTree c' x ∧ Fresh K pres t fuel c' M0 x := by
+                    rintro ⟨c', hm, _, h2, _⟩
+                    have hpar : K.parent c' = some p := hdone c' hm
+                    exact absurd (anc_child_unique hc hpar hcx h2) (fun e => hcd (e ▸ hm))
+                  by_cases hx : x = c
+                  · subst hx
+                    have : ∃ c', c' ∈ done ++ [x] ∧ pres c' = true ∧ Anc K.toTree c' x ∧ Fresh K pres t fuel c' M0 x :=
+                      ⟨x, by simp, hp', Anc.refl x, l0, hl0, hAl0, hl0'⟩
+                    rw [if_pos this]; simp [upd]
+                  · simp only [upd, hx, if_false]
+                    rw [sL x, hunc x hcx]
+                    by_cases hfx : Fresh K pres t fuel c M0 x
+                    · have h1 : x ≠ c ∧ Anc K.toTree c x ∧ Fresh K pres t fuel c acc.L x := ⟨hx, hcx, (hfresh_eq x).mpr hfx⟩
+                      have h2 : ∃ c', c' ∈ done ++ [c] ∧ pres c' = true ∧ Anc K.toTree c' x ∧ Fresh K pres t fuel c' M0 x :=
+                        ⟨c, by simp, hp', hcx, hfx⟩
+                      rw [if_pos h1, if_pos h2]
+                    · have h1 : ¬ (x ≠ c ∧ Anc K.toTree c x ∧ Fresh K pres t fuel c acc.L x) :=
+                        fun ⟨_, _, h⟩ => hfx ((hfresh_eq x).mp h)
+                      have h2 : ¬ ∃ c', c' ∈ done ++ [c] ∧ pres c' = true ∧ Anc K.toTree c' x ∧ Fresh K pres t fuel c' M0 x := by
+                        rintro ⟨c', hm, h1', h2', h3'⟩
+                        rcases List.mem_append.mp hm with h | h
+                        · exact hnodone ⟨c', h, h1', h2', h3'⟩
+                        · have : c' = c := by simpa using h
+                          subst this; exact hfx h3'
+                      rw [if_neg h1, if_neg h2]
+                · have hxc : x ≠ c := by intro e; subst e; exact hcx (Anc.refl _)
+                  simp only [upd, hxc, if_false]
+                  rw [hout x hcx, okL x]
+                  have : (∃ c', c' ∈ done ++ [c] ∧ pres c' = true ∧ Anc K.toTree c' x ∧ Fresh K pres t fuel c' M0 x) ↔
+                      (∃ c', c' ∈ done ∧ pres c' = true ∧ Anc K.toTree c' x ∧ Fresh K pres t fuel c' M0 x) := by
+                    constructor
+                    · rintro ⟨c', hm, h1, h2, h3⟩
+                      rcases List.mem_append.mp hm with h | h
+                      · exact ⟨c', h, h1, h2, h3⟩
+                      · have : c' = c := by simpa using h
+                        subst this; exact absurd h2 hcx
+                    · rintro ⟨c', hm, h1, h2⟩; exact ⟨c', List.mem_append_left _ hm, h1, h2⟩
+                  exact (ite_iff_congr this t (M0 x)).symm
+              · constructor
+                · intro _; exact ⟨c, by simp, hp', l0, hl0, hl0'⟩
+                · intro _; rfl
+              · intro c' hm h1
+                rcases List.mem_append.mp hm with h | h
+                · exact okD c' h h1
+                · have : c' = c := by simpa using h
+                  subst this
+                  intro y hy hyt hfy
+                  by_cases hyc : y = c'
+                  · subst hyc; omega
+                  · have : acc.L y = t := by rw [hunc y hy]; exact hyt
+                    exact sD y hyc hy this ((hfresh_eq y).mpr hfy)
+
+/-- the whole loop -/
+theorem loop_spec (K : KTree) (pres : Nat → Bool) (t fuel p : Nat) (M0 : Lmt)
+    (hb0 : ∀ x, M0 x ≤ t) (htc0 : TCbelow K t p M0)
+    (ihc : ∀ c M, K.height c < fuel → (∀ x, M x ≤ t) → TCbelow K t c M →
+      CopySpec K pres t fuel c M (copyF K t pres fuel c M))
+    (hf : K.height p < fuel + 1) :
+    ∀ (rem done : List Nat) (acc : WOut),
+      (∀ c', c' ∈ rem → K.parent c' = some p) → (∀ c', c' ∈ done → K.parent c' = some p) →
+      rem.Nodup → (∀ c', c' ∈ rem → c' ∉ done) →
+      LoopInv K pres t fuel p M0 done rem acc →
+      LoopInv K pres t fuel p M0 (done ++ rem) []
+        (rem.foldl (childStep t pres (fun c M => copyF K t pres fuel c M)) acc) := by
+  intro rem
+  induction rem with
+  | nil => intro done acc _ _ _ _ I; simpa using I
+  | cons c rem ih =>
+    intro done acc hrem hdone hnd hdisj I
+    have hc := hrem c List.mem_cons_self
+    have hrem' : ∀ c', c' ∈ rem → K.parent c' = some p := fun c' h => hrem c' (List.mem_cons_of_mem _ h)
+    have hcr : c ∉ rem := (List.nodup_cons.mp hnd).1
+    have hcd : c ∉ done := hdisj c List.mem_cons_self
+    have I' := loop_step K pres t fuel p M0 hb0 htc0 ihc hf done rem c acc hc hrem' hdone hcd hcr I
+    have := ih (done ++ [c]) _ hrem'
+      (fun c' h => by
+        rcases List.mem_append.mp h with h | h
+        · exact hdone c' h
+        · have : c' = c := by simpa using h
+          subst this; exact hc)
+      (List.nodup_cons.mp hnd).2
+      (fun c' h hd => by
+        rcases List.mem_append.mp hd with hd | hd
+        · exact hdisj c' (List.mem_cons_of_mem _ h) hd
+        · have : c' = c := by simpa using hd
+          subst this; exact hcr h)
+      I'
+    simpa [List.foldl_cons, List.append_assoc] using this
+
+/-- **`fixed_copy_value_from` as coded, characterised**: from any state bounded by `t` whose `t`-stamps are closed
+    upwards below `p` -/
+theorem copyF_spec (K : KTree) (hnd : ∀ q, (K.kids q).Nodup) (pres : Nat → Bool) (t : Nat) :
+    ∀ (fuel p : Nat) (M : Lmt), K.height p < fuel → (∀ x, M x ≤ t) → TCbelow K t p M →
+      CopySpec K pres t fuel p M (copyF K t pres fuel p M) := by
+  intro fuel
+  induction fuel with
+  | zero => intro p M h; omega
+  | succ fuel ih =>
+    intro p M hf hb htc
+    rw [copyF_succ]
+    by_cases hk : K.kids p = []
+    · rw [if_pos hk]
+      have hleaves : ∀ l, l ∈ leavesF K pres (fuel + 1) p ↔ l = p := by
+        intro l; rw [mem_leavesF_succ]; simp [hk]
+      have nofresh : ∀ y, y ≠ p → Anc K.toTree p y → ¬ Fresh K pres t (fuel + 1) p M y := by
+        rintro y hy hpy ⟨l, hl, hyl, _⟩
+        rw [(hleaves l).mp hl] at hyl
+        have := anc_le hpy; have := anc_le hyl; omega
+      refine ⟨fun x => Or.inl rfl, ?_, fun x => by simp, ?_, fun h => by cases h⟩
+      · intro c q hc hq hne hct; exact htc c q hc hq hct
+      · intro b hbb
+        injection hbb with hbb
+        refine ⟨?_, ?_, fun y hy hpy _ => nofresh y hy hpy⟩
+        · intro x
+          have : ¬ (x ≠ p ∧ Anc K.toTree p x ∧ Fresh K pres t (fuel + 1) p M x) := fun ⟨h1, h2, h3⟩ => nofresh x h1 h2 h3
+          rw [if_neg this]
+        · rw [← hbb]
+          constructor
+          · intro h; exact ⟨p, (hleaves p).mpr rfl, by simpa using h⟩
+          · rintro ⟨l, hl, hne⟩; rw [(hleaves l).mp hl] at hne; simpa using hne
+    · rw [if_neg hk]
+      have I0 : LoopInv K pres t fuel p M [] (K.kids p) ⟨M, [], [], some false⟩ := by
+        refine ⟨fun x => Or.inl rfl, ?_, fun x => by simp, fun _ _ _ _ => rfl, ?_, fun h => by cases h⟩
+        · intro c q hc hq _ hct; exact htc c q hc hq hct
+        · intro nm hnm
+          injection hnm with hnm; subst hnm
+          refine ⟨fun x => ?_, ?_, fun c h => absurd h List.not_mem_nil⟩
+          · have : ¬ ∃ c, c ∈ ([] : List Nat) ∧ pres c = true ∧ Anc K.toTree c x ∧ Fresh K pres t fuel c M x := by
+              rintro ⟨c, h, _⟩; exact absurd h List.not_mem_nil
+            rw [if_neg this]
+          · constructor
+            · intro h; cases h
+            · rintro ⟨c, h, _⟩; exact absurd h List.not_mem_nil
+      have I := loop_spec K pres t fuel p M hb htc (fun c M' => ih c M') hf (K.kids p) [] _
+        (fun c h => (K.kids_iff p c).mp h) (fun c h => absurd h List.not_mem_nil) (hnd p)
+        (fun _ _ h => absurd h List.not_mem_nil) I0
+      rw [List.nil_append] at I
+      generalize (K.kids p).foldl (childStep t pres (fun c M => copyF K t pres fuel c M)) ⟨M, [], [], some false⟩ = o at I
+      -- the children's leaves are the leaves
+      have hmemL : ∀ l, l ∈ leavesF K pres (fuel + 1) p ↔ ∃ c, c ∈ K.kids p ∧ pres c = true ∧ l ∈ leavesF K pres fuel c := by
+        intro l; rw [mem_leavesF_succ]; simp [hk]
+      have hfreshP : ∀ y, y ≠ p → Anc K.toTree p y →
+          (Fresh K pres t (fuel + 1) p M y ↔
+            ∃ c, c ∈ K.kids p ∧ pres c = true ∧ Anc K.toTree c y ∧ Fresh K pres t fuel c M y) := by
+        intro y hy hpy
+        constructor
+        · rintro ⟨l, hl, hyl, hne⟩
+          obtain ⟨c, hc, hpc, hlc⟩ := (hmemL l).mp hl
+          rcases anc_down hpy with rfl | ⟨s, hs, hsy⟩
+          · exact absurd rfl hy
+          · have hcl := leavesF_anc K pres fuel c l hlc
+            have : s = c := anc_child_unique hs ((K.kids_iff p c).mp hc) (anc_trans hsy hyl) hcl
+            subst this
+            exact ⟨s, hc, hpc, hsy, l, hlc, hyl, hne⟩
+        · rintro ⟨c, hc, hpc, _, l, hlc, hyl, hne⟩
+          exact ⟨l, (hmemL l).mpr ⟨c, hc, hpc, hlc⟩, hyl, hne⟩
+      refine ⟨I.frame, I.closed, I.count, ?_, ?_⟩
+      · intro b hbb
+        obtain ⟨oL, oN, oD⟩ := I.ok b hbb
+        refine ⟨?_, ?_, ?_⟩
+        · intro x
+          rw [oL x]
+          apply ite_iff_congr
+          constructor
+          · rintro ⟨c, hc, hpc, hcx, hf'⟩
+            have hpar := (K.kids_iff p c).mp hc
+            have hApx : Anc K.toTree p x := anc_trans (Anc.step hpar (Anc.refl p)) hcx
+            have hxp : x ≠ p := by have := anc_le hcx; have := K.wf c p hpar; omega
+            exact ⟨hxp, hApx, (hfreshP x hxp hApx).mpr ⟨c, hc, hpc, hcx, hf'⟩⟩
+          · rintro ⟨hxp, hApx, hf'⟩
+            exact (hfreshP x hxp hApx).mp hf'
+        · rw [oN]
+          constructor
+          · rintro ⟨c, hc, hpc, l, hl, hne⟩; exact ⟨l, (hmemL l).mpr ⟨c, hc, hpc, hl⟩, hne⟩
+          · rintro ⟨l, hl, hne⟩
+            obtain ⟨c, hc, hpc, hlc⟩ := (hmemL l).mp hl
+            exact ⟨c, hc, hpc, l, hlc, hne⟩
+        · intro y hy hpy hyt hf'
+          obtain ⟨c, hc, hpc, hcy, hfc⟩ := (hfreshP y hy hpy).mp hf'
+          exact oD c hc hpc y hcy hyt hfc
+      · intro hn
+        obtain ⟨e1, c, y, hc, hpc, hcy, hyt, hfc⟩ := I.err hn
+        have hpar := (K.kids_iff p c).mp hc
+        have hApy : Anc K.toTree p y := anc_trans (Anc.step hpar (Anc.refl p)) hcy
+        have hyp : y ≠ p := by have := anc_le hcy; have := K.wf c p hpar; omega
+        exact ⟨e1, y, hyp, hApy, hyt, (hfreshP y hyp hApy).mpr ⟨c, hc, hpc, hcy, hfc⟩⟩
+
+/-! ## the write itself (`TSDataMutationView::copy_value_from / move_value_from`) -/
+
+theorem tcbelow_of_inv {K : KTree} {now t : Nat} {L : Lmt} (h : Inv K.toTree now L) (ht : now ≤ t) (p : Nat) :
+    TCbelow K t p L := by
+  intro c q hc _ hct
+  have := h.1 c q hc; have := h.2 q; omega
+
+theorem mem_presLeaves_fuel (K : KTree) (pres : Nat → Bool) (p l : Nat) :
+    l ∈ leavesF K pres (K.height p + 1) p ↔ PresLeaf K pres p l := mem_presLeaves_iff K pres p l
+
+/-- the outcome of the recursion at the written position, with everything `copyF_spec` says about it -/
+theorem whole_core (K : KTree) (hnd : ∀ q, (K.kids q).Nodup) (pres : Nat → Bool) (now t p : Nat) (L : Lmt)
+    (h : Inv K.toTree now L) (ht : now ≤ t) :
+    CopySpec K pres t (K.height p + 1) p L (copyF K t pres (K.height p + 1) p L) :=
+  copyF_spec K hnd pres t (K.height p + 1) p L (Nat.lt_succ_self _) (fun x => Nat.le_trans (h.2 x) ht)
+    (tcbelow_of_inv h ht p)
+
+theorem wholeOut_r (K : KTree) (p t : Nat) (pres : Nat → Bool) (L : Lmt) :
+    (wholeOut K p t pres L).r = (copyF K t pres (K.height p + 1) p L).r := by
+  unfold wholeOut
+  cases hr : (copyF K t pres (K.height p + 1) p L).r with
+  | none => simp only [hr]
+  | some b => cases b <;> simp only [hr]
+
+/-- **`lmt child ≤ lmt parent ≤ now` survives every whole-value write** — also one that fails half-way with the
+    duplicate-modification error -/
+theorem whole_inv (K : KTree) (hnd : ∀ q, (K.kids q).Nodup) (pres : Nat → Bool) (now t p : Nat) (L : Lmt)
+    (h : Inv K.toTree now L) (ht : now ≤ t) : Inv K.toTree t (whole K p t pres L) := by
+  have S := whole_core K hnd pres now t p L h ht
+  have hb : ∀ x, L x ≤ t := fun x => Nat.le_trans (h.2 x) ht
+  unfold whole wholeOut
+  generalize copyF K t pres (K.height p + 1) p L = o at S
+  have hbo : ∀ x, o.L x ≤ t := by
+    intro x; rcases S.frame x with e | ⟨e, _⟩
+    · rw [e]; exact hb x
+    · omega
+  have hmono : ∀ x, L x ≤ o.L x := by
+    intro x; rcases S.frame x with e | ⟨e, _⟩
+    · omega
+    · have := hb x; omega
+  have hedge : ∀ c q, K.parent c = some q → o.L c ≤ o.L q ∨ (q = p ∧ o.L c = t) := by
+    intro c q hc
+    rcases S.frame c with e | ⟨e, hcp, hpc, _⟩
+    · left; rw [e]; exact Nat.le_trans (h.1 c q hc) (hmono q)
+    · by_cases hq : q = p
+      · exact Or.inr ⟨hq, e⟩
+      · left
+        have := S.closed c q hc (anc_parent_of_ne hc hpc (Ne.symm hcp)) hq e
+        omega
+  cases hr : o.r with
+  | none =>
+    simp only
+    obtain ⟨ept, _⟩ := S.err hr
+    refine ⟨?_, hbo⟩
+    intro c q hc
+    rcases hedge c q hc with h1 | ⟨hq, _⟩
+    · exact h1
+    · subst hq
+      have : o.L q = L q := by
+        rcases S.frame q with e | ⟨_, e, _⟩
+        · exact e
+        · exact absurd rfl e
+      have := hbo c; omega
+  | some b =>
+    obtain ⟨sL, sB, _⟩ := S.ok b hr
+    cases b with
+    | false =>
+      simp only
+      refine ⟨?_, hbo⟩
+      intro c q hc
+      rcases hedge c q hc with h1 | ⟨hq, hct⟩
+      · exact h1
+      · exfalso
+        rcases S.frame c with e | ⟨_, hcp, hpc, hlt⟩
+        · -- `c` carried `t` before: then so did `p`
+          have := h.1 c q hc; have := hb q; have := hmono q; have := hbo q
+          subst hq
+          have hqq : o.L q = L q := by
+            rcases S.frame q with e' | ⟨_, e', _⟩
+            · exact e'
+            · exact absurd rfl e'
+          -- nothing to contradict: the edge is ordered
+          omega
+        · have hx := sL c
+          rw [hct] at hx
+          by_cases hcond : c ≠ p ∧ Anc K.toTree p c ∧ Fresh K pres t (K.height p + 1) p L c
+          · obtain ⟨_, _, l, hl, _, hne⟩ := hcond
+            have := sB.mpr ⟨l, hl, hne⟩; cases this
+          · rw [if_neg hcond] at hx; omega
+    | true =>
+      simp only
+      obtain ⟨m1, m2, _, _⟩ := markUp_spec K.toTree t (p + 1) p o.L (Nat.lt_succ_self p) hbo hedge
+      exact ⟨m1, m2⟩
+
 end HgVerif.Tracking
